@@ -637,7 +637,7 @@ fn structured_perm(n: usize, which: u64, r: &mut Xo) -> Vec<usize> {
 }
 
 impl C16 {
-    fn run_inner<T: RealNumber + Send + Sync>(&self, case: &Case, rep: &mut Report) {
+    fn run_inner<T: RealNumber>(&self, case: &Case, rep: &mut Report) {
         let n = case.n;
         let k = case.k;
         let (x, y) = make_xy::<T>(n, case.p);
@@ -731,26 +731,36 @@ impl C16 {
                             let (x2, _) = make_xy::<T>(n2, 1);
                             let out = guarded(|| {
                                 std::thread::scope(|sc| {
-                                    let (x2a, xa, cva, spec_ar) = (&x2, &x, &cv, &spec_a);
+                                    // (everything is lent to ONE other thread at a time while this thread waits in join; no Send / Sync
+                                    // bound is demanded from the splitter or its iterator - a changed tree may drop them, and the
+                                    // harness must still compile against it)
+                                    struct Lend<P>(P);
+                                    unsafe impl<P> Send for Lend<P> {}
+                                    let la = Lend((&x2 as *const DenseMatrix<T>, &x as *const DenseMatrix<T>, &cv as *const KFold, &spec_a as *const TapeSpec));
                                     let it = sc
                                         .spawn(move || {
+                                            let l = la;
+                                            let (x2a, xa, cva, spec_ar) = unsafe { (&*(l.0).0, &*(l.0).1, &*(l.0).2, &*(l.0).3) };
                                             let g = TapeGuard::install(spec_ar);
                                             for _ in 0..wa {
                                                 let _: Vec<(Vec<usize>, Vec<usize>)> = make_kfold(k2, true, 0).split(x2a).collect();
                                             }
                                             let it = cva.split(xa);
                                             drop(g);
-                                            it
+                                            Lend(it)
                                         })
                                         .join()
                                         .map_err(|_| "creating thread panicked".to_string())?;
-                                    let (x2r, spec_br) = (&x2, &spec_b);
+                                    let lb = Lend((&x2 as *const DenseMatrix<T>, &spec_b as *const TapeSpec));
                                     sc.spawn(move || {
+                                        let l = lb;
+                                        let it = it;
+                                        let (x2r, spec_br) = unsafe { (&*(l.0).0, &*(l.0).1) };
                                         let g = TapeGuard::install(spec_br);
                                         for _ in 0..wb {
                                             let _: Vec<(Vec<usize>, Vec<usize>)> = make_kfold(k2, true, 1).split(x2r).collect();
                                         }
-                                        let f: Vec<(Vec<usize>, Vec<usize>)> = it.collect();
+                                        let f: Vec<(Vec<usize>, Vec<usize>)> = it.0.collect();
                                         drop(g);
                                         f
                                     })
